@@ -204,7 +204,7 @@ fn main() {
         "a refusal (TooLongData) is accepted for any payload of 1024 bytes or more (0.6 cannot carry it in a 10-bit chunk size); below that it is a violation".into(),
     ];
     ctx.arm("c04", 1800.0);
-    let n = ctx.volume(120, 4_000, 3, 10);
+    let n = ctx.volume(250, 5_000, 3, 10);
     ctx.run_cases("chaos", n, |ctx, idx, rng| {
         let v = Variant::all()[(idx % 3) as usize];
         let moves = match ctx.tier {
@@ -213,7 +213,7 @@ fn main() {
         };
         dispatch(ctx, rng, v, |c, r| chaos::<c6::Connection>(c, r, v, moves), |c, r| chaos::<c7::Connection>(c, r, v, moves));
     });
-    let n = ctx.volume(30, 1_000, 0, 3);
+    let n = ctx.volume(80, 1_500, 0, 3);
     ctx.run_cases("burst", n, |ctx, idx, rng| {
         let v = Variant::all()[(idx % 3) as usize];
         dispatch(ctx, rng, v, |c, r| burst::<c6::Connection>(c, r, v), |c, r| burst::<c7::Connection>(c, r, v));
